@@ -11,7 +11,7 @@ import json
 import os
 import warnings
 
-from sim import kernel, scenes, seams
+from sim import kernel, scenes, seams, prmspace
 from sim.digest import chunk_parts, parts_digest
 from sim.minimise import shrink_history
 
@@ -94,7 +94,8 @@ def run_history(case, stats=None):
                         plt.close(user_figs.pop(0))
                     continue
                 # ---- plot
-                _, k, upto, show_ceilos, ref_metar, origin, show, stem, fmts = op
+                _, k, upto, show_ceilos, ref_metar, origin, show, stem, fmts = op[:9]
+                as_path = len(op) > 9 and bool(op[9])
                 abs_stem = stem
                 if stem and stem.startswith('{ROOT}/'):    # absolute path inside the sandbox
                     abs_stem = os.path.join(root, stem[len('{ROOT}/'):])
@@ -118,7 +119,8 @@ def run_history(case, stats=None):
                           'ref_metar': REF_METARS[ref_metar],
                           'ref_metar_origin': ORIGINS[origin], 'show': bool(show)}
                 if stem:
-                    kwargs['save_stem'] = abs_stem
+                    import pathlib
+                    kwargs['save_stem'] = pathlib.Path(abs_stem) if as_path else abs_stem
                 if fmts != 'default':
                     kwargs['save_fmts'] = fmts
                 bump('probe.plot_upto_' + UPTO[upto])
@@ -281,7 +283,8 @@ def gen_ops(rng, n_chunks):
                                    ['pdf'], ['png', 'pdf', 'svg'], None])
             ops.append(['plot', rng.randrange(n_chunks), rng.randrange(4),
                         int(rng.random() < 0.5), rng.randrange(len(REF_METARS)),
-                        rng.randrange(len(ORIGINS)), int(rng.random() < 0.12), stem, fmts])
+                        rng.randrange(len(ORIGINS)), int(rng.random() < 0.12), stem, fmts,
+                        int(rng.random() < 0.2)])
     return ops
 
 
@@ -310,6 +313,20 @@ def execute(run):
             sc = scenes.gen_scene(rng_scene, rng_scene.choice(POOL_CLASSES))
             if rng_scene.random() < 0.3 and 'MSA' not in sc['prms']:
                 sc['prms'] = dict(sc['prms'], MSA=rng_scene.choice([3000, 9000]))
+            if rng_scene.random() < 0.5:     # the plot reads several leaves of the chunk snapshot
+                from sim.models import get_path, leaf_paths
+                leaves = {q: get_path(sc['prms'], q) for q in leaf_paths(sc['prms'])}
+                extra = prmspace.gen_leaf_values(
+                    rng_scene, prmspace.packaged_defaults(), n_leaves=0,
+                    must=rng_scene.sample([('LOWESS', 'frac'), ('LOWESS', 'it'),
+                                           ('GROUPING_PRMS', 'height_pad_perc'),
+                                           ('GROUPING_PRMS', 'dt_scale'),
+                                           ('SLICING_PRMS', 'dt_scale'),
+                                           ('SLICING_PRMS', 'height_scale_kwargs', 'min_range'),
+                                           ('MAX_HOLES_OKTA8',), ('MAX_HITS_OKTA0',)], 3))
+                for q, v in extra.items():
+                    leaves.setdefault(q, v)
+                sc['prms'] = prmspace.assign_from_leaves(leaves)
             pool.append(sc)
             metas.append({'geoloc': rng_scene.choice([None, 'Geneva', 'LSZH rwy 14', 'LSZH_rwy_14',
                                                       'site 100% b']),
